@@ -95,7 +95,11 @@ class StateHooks(Hooks):
 def _replay_history_orphan(inputs):
     from pyvc.check import native
     r_ = native("replay_orphan_replay.py", {})
-    return bool(r_.get("confirmed")), r_
+    if not r_.get("confirmed"):
+        r2 = native("replay_orphan_replay.py", {"paginated": True})   # same history, branch records on a later page
+        r2["scenario"] = "history paginated: the branch records arrive with get_execution_state"
+        return bool(r2.get("confirmed")), r2
+    return True, r_
 
 
 def merge_all_pages(chk, prefix="C01"):
